@@ -3,6 +3,7 @@
 //! Exit codes: 0 = property held on everything explored, 1 = violation (a line
 //! `VIOLATION property=<id> replay=<path>` is printed), 2 = harness error.
 
+mod allocfail;
 mod batch;
 mod cli;
 mod cli_cli;
@@ -17,6 +18,9 @@ mod threads;
 mod threads_cli;
 
 use batch::harness_error;
+
+#[global_allocator]
+static GLOBAL: allocfail::FaultAlloc = allocfail::FaultAlloc;
 
 pub fn panic_message(p: &Box<dyn std::any::Any + Send>) -> String {
     if let Some(s) = p.downcast_ref::<&str>() {
@@ -59,6 +63,8 @@ fn main() {
         "gen-selftest" => genselftest::cli(&args[2..]),
         "images" => threads_cli::cli_images(&args[2..]),
         "image-of" => threads_cli::cli_image_of(&args[2..]),
+        "image-of-lowmem" => allocfail::cli_child(&args[2..]),
+        "allocfail" => allocfail::cli(&args[2..]),
         "replay" => {
             let path = args.get(2).unwrap_or_else(|| harness_error("replay: missing path"));
             let txt = std::fs::read_to_string(path)
@@ -72,6 +78,7 @@ fn main() {
                 Some("cli") => cli_cli::replay(&doc, &args[3..]),
                 Some("perm") => threads_cli::replay_perm(&doc),
                 Some("giant") => giant::replay(&doc),
+                Some("allocfail") => allocfail::replay(&doc),
                 other => harness_error(&format!("replay: unknown engine {other:?}")),
             };
             if code == 1 {
